@@ -198,7 +198,7 @@ def displacement_cases(draw):
 # ----------------------------------------------------------------------------- invariance
 
 _tmode = st.sampled_from(['origin', 'wrap', 'both'])
-_perm2 = st.one_of(st.just(0), st.integers(1, 2 ** 31), st.integers(1, 2 ** 31), st.integers(1, 2 ** 31), st.integers(1, 2 ** 31))
+_perm2 = st.integers(0, 2 ** 31)
 
 
 @st.composite
